@@ -1,4 +1,5 @@
 import Pyvsc.Props.C03
+import Pyvsc.Proofs.PathsInj
 /-!
 # C08 — constraints reach through the object hierarchy to exactly the fields they name
 -/
@@ -23,5 +24,40 @@ theorem sub_blocks_iff_rand (h : Toggles) (t : Node) (o : Nat) (n : String) :
 theorem nonrandom_subtree_constant (t : Node) (r : Bool) (p : Nat × Bool)
     (hp : p ∈ (used t false r).1) : p.2 = false :=
   (C03.used_false t r).1 p hp
+
+/-! ### attribute paths (`Model/Paths.lean`; the driver checks on every scenario that its own table
+walk and `Paths.Members.resolve` name the same scalar, and that every scalar's id is the model's
+resolution of its path) -/
+
+open Pyvsc.Paths in
+/-- **Two references denote the same field only if they are the same path**: whatever the tree
+    (depth, fan-out, lists of objects, several sub-objects of one class, even members of equal
+    name), two attribute paths that resolve to the same scalar are equal -/
+theorem paths_never_alias (ms : Members) (p q : List String) (i : Nat)
+    (hp : Shape.resolveIn (.obj ms) 0 p = some i) (hq : Shape.resolveIn (.obj ms) 0 q = some i) : p = q :=
+  Shape.resolveIn_inj (.obj ms) 0 p q i hp hq
+
+open Pyvsc.Paths in
+/-- **Structurally identical sub-objects never alias each other's fields**: the same relative path
+    below two different members names two different scalars -/
+theorem siblings_never_alias (ms : Members) (n1 n2 : String) (ps : List String) (i j : Nat) (hne : n1 ≠ n2)
+    (h1 : ms.resolve 0 n1 ps = some i) (h2 : ms.resolve 0 n2 ps = some j) : i ≠ j := by
+  intro e
+  subst e
+  exact hne (Members.resolve_inj ms 0 n1 ps n2 ps i h1 h2).1
+
+open Pyvsc.Paths in
+/-- **A reference through a sub-object stays inside it**: a path that enters the object member `n`
+    resolves to one of the scalars of that very member (ids `base .. base + nsc - 1`), never to a
+    field of a sibling that follows -/
+theorem path_stays_inside (n : String) (sub rest : Members) (base : Nat) (q : String) (qs : List String) (i : Nat)
+    (h : (Members.cons n (.obj sub) rest).resolve base n (q :: qs) = some i) :
+    base ≤ i ∧ i < base + sub.nsc := by
+  simp only [Members.resolve, kindOk, and_self, if_true] at h
+  simpa [Shape.nsc] using Shape.resolveIn_range (.obj sub) base (q :: qs) i h
+
+open Pyvsc.Paths in
+example : (Members.cons "a" (.obj (.cons "x" .scalar .nil)) (.cons "b" (.obj (.cons "x" .scalar .nil)) .nil)).resolve 0 "b" ["x"]
+    = some 1 := by decide
 
 end Pyvsc.C08
